@@ -26,14 +26,14 @@ Variable compress : Z -> list N -> list N.
 Variable decomp : Z -> list N -> option (list N).
 Hypothesis decomp_law : forall c x, decomp c (compress c x) = Some x.
 
-Theorem batch_decode_exact_legacy_then_v2 log lg v2 o k hwm :
+Theorem batch_decode_exact_legacy_then_v2_full log lg v2 o k hwm :
   log_ok log -> layout_ok log (lg ++ v2) ->
   Forall legacy_ok lg -> Forall (fun b => pb_fmt b = 2) v2 -> Forall (v2ok compress) v2 -> 0 <= o ->
   from_offset lg o <> [] -> valid_cut compress (lg ++ v2) o k -> hwm <> o ->
   forall fuel, (length (all_items (from_offset lg o)) + tokens [] v2 + 5 <= fuel)%nat ->
   exists ms f,
     fetch_run decomp fuel o hwm (fetch_response compress (lg ++ v2) o k) (Z.of_nat k) false = Some (ms, EEOF, f)
-    /\ fetch_ok log o ms f.
+    /\ fetch_ok log o ms f /\ ms <> [].
 Proof.
   intros (Hlog1 & Hlog2) (Hrecs & Hpb & Hranges) Hleg Hfmt2 Hv2 Ho0 Hne Hcut Hhwm fuel Hfuel.
   destruct (from_offset_split lg o) as (pre & Hsplit & Hpre).
@@ -105,6 +105,30 @@ Proof.
     destruct (last_off_in (r1 :: rs1) (pb_base b1 + pb_lod b1) ltac:(discriminate)) as (r0 & Hr0 & He0).
     rewrite <- He0 in Hlast1.
     pose proof (last_off_max _ _ 0 r0 Hinc (in_or_app _ _ r0 (or_introl Hr0))). lia. }
+  assert (Hwit : exists r, In r (r1 :: rs1) /\ o <= r_off r).
+  { assert (Hlast1 : o <= pb_last b1).
+    { unfold bs in Ebs. clear -Ebs. induction lg as [|b t IH]; [discriminate|].
+      cbn [from_offset] in Ebs. destruct (pb_last b <? o) eqn:E; [apply IH; exact Ebs|].
+      injection Ebs as <- _. lia. }
+    unfold pb_last in Hlast1. replace (pb_fmt b1 =? 2) with false in Hlast1 by lia. rewrite Er1 in Hlast1.
+    destruct (last_off_in (r1 :: rs1) (pb_base b1 + pb_lod b1) ltac:(discriminate)) as (r0 & Hr0 & He0).
+    exists r0. split; [exact Hr0|lia]. }
+  assert (Hfirst : exists it' items' j', lstep o (PIn it1 rest j0) = LDeliver it' items' j').
+  { cbn [lstep]. apply (lg_read_delivers decomp tl o rest it1 j0 (length rs1)).
+    - unfold rest. rewrite firstn_app, firstn_all2 by (rewrite map_length; lia).
+      rewrite map_length, Nat.sub_diag. cbn [firstn]. rewrite app_nil_r.
+      unfold items_of in Hk1. rewrite Er1 in Hk1. cbn [map] in Hk1.
+      change (stream ((pb_fmt b1, r1) :: map (fun r => (pb_fmt b1, r)) rs1))
+        with (enc_item it1 ++ stream (map (fun r => (pb_fmt b1, r)) rs1)) in Hk1.
+      unfold enc_item in Hk1. rewrite !app_length in Hk1. unfold j0, len. lia.
+    - unfold rest. rewrite firstn_app, firstn_all2 by (rewrite map_length; lia).
+      rewrite map_length, Nat.sub_diag. cbn [firstn]. rewrite app_nil_r.
+      destruct Hwit as (r & Hr & Hge). exists r. split; [|exact Hge].
+      unfold recs_of. rewrite map_map. cbn [snd]. rewrite map_id. exact Hr. }
+  destruct Hfirst as (itf & itemsf & jf & Hfirst).
+  assert (Hne0 : match l_run fuel (PIn it1 rest j0) o [] with
+                 | LDone ms x => ms <> [] | LGo _ _ _ acc' _ => acc' <> [] | LFail => True end).
+  { destruct fuel as [|f0]; [lia|]. apply (l_run_nonempty decomp tl tlrecs o f0 _ o [] itf itemsf jf HI Hfirst). }
   pose proof (run_refine_v1 decomp tl tlrecs o fuel (PIn it1 rest j0) o [] Hpos HI Hcnt) as Href.
   pose proof (l_run_spec decomp tl tlrecs o fuel (PIn it1 rest j0) o [] HI) as Hspec.
   (* the records before the response are below o *)
@@ -125,7 +149,7 @@ Proof.
     eapply Forall_impl; [|exact G3]. cbn. intros a Ha. lia. }
   destruct (l_run fuel (PIn it1 rest j0) o []) as [ms x|j h off' acc' f'|]; [| |contradiction].
   - (* the response is cut inside the v0/v1 part *)
-    exists ms, x. split; [exact Href|]. destruct Hspec as (Rp & Rs & G1 & G2 & G3 & G4 & G5).
+    exists ms, x. split; [exact Href|]. split; [|exact Hne0]. destruct Hspec as (Rp & Rs & G1 & G2 & G3 & G4 & G5).
     apply (Hfinish ms x Rp (Rs ++ tlrecs)); try assumption.
     rewrite <- Hpend, G1, <- app_assoc. reflexivity.
   - (* the v0/v1 part was read whole: on with the v2 batches *)
@@ -156,12 +180,42 @@ Proof.
       destruct G4 as (_ & _ & _ & _ & HJ). intros r Hr. apply HJ. cbn [pend recs_of map app]. exact Hr. }
     destruct (a_run_spec compress decomp decomp_law o f' pb acc' ms x HInvb Erun) as (Rp & Rs & A1 & A2 & A3 & A4 & A5).
     unfold pb in A5. cbn [a_off] in A5.
+    split.
+    2:{ rewrite A2. intros Hn. apply app_eq_nil in Hn as [Hn _]. apply Hne0.
+        destruct acc' as [|a t]; [reflexivity|cbn [rev] in Hn; destruct (rev t); discriminate]. }
     apply (Hfinish ms x (flat_map pb_recs (b1 :: bs') ++ Rp) Rs).
     + unfold remp, pb in A1. cbn [a_rs a_bs app] in A1. fold tlrecs in A1. rewrite A1, app_assoc. reflexivity.
     + rewrite A2, G1, filter_app, <- Hpend. unfold mm. rewrite map_app. reflexivity.
     + apply Forall_app. split; [|exact A3]. rewrite <- Hpend. eapply Forall_impl; [|exact G2]. cbn. intros a Ha. lia.
     + exact A4.
     + lia.
+Qed.
+
+Theorem batch_decode_exact_legacy_then_v2 log lg v2 o k hwm :
+  log_ok log -> layout_ok log (lg ++ v2) ->
+  Forall legacy_ok lg -> Forall (fun b => pb_fmt b = 2) v2 -> Forall (v2ok compress) v2 -> 0 <= o ->
+  from_offset lg o <> [] -> valid_cut compress (lg ++ v2) o k -> hwm <> o ->
+  forall fuel, (length (all_items (from_offset lg o)) + tokens [] v2 + 5 <= fuel)%nat ->
+  exists ms f,
+    fetch_run decomp fuel o hwm (fetch_response compress (lg ++ v2) o k) (Z.of_nat k) false = Some (ms, EEOF, f)
+    /\ fetch_ok log o ms f.
+Proof.
+  intros H1 H2 H3 H4 H5 H6 H7 H8 H9 fuel H10.
+  destruct (batch_decode_exact_legacy_then_v2_full log lg v2 o k hwm H1 H2 H3 H4 H5 H6 H7 H8 H9 fuel H10) as (ms & f & Hr & Hok & _).
+  exists ms, f. split; assumption.
+Qed.
+
+Theorem progress_legacy_then_v2 log lg v2 o k hwm :
+  log_ok log -> layout_ok log (lg ++ v2) ->
+  Forall legacy_ok lg -> Forall (fun b => pb_fmt b = 2) v2 -> Forall (v2ok compress) v2 -> 0 <= o ->
+  from_offset lg o <> [] -> valid_cut compress (lg ++ v2) o k -> hwm <> o ->
+  forall fuel ms e f, (length (all_items (from_offset lg o)) + tokens [] v2 + 5 <= fuel)%nat ->
+  fetch_run decomp fuel o hwm (fetch_response compress (lg ++ v2) o k) (Z.of_nat k) false = Some (ms, e, f) ->
+  ms <> [].
+Proof.
+  intros H1 H2 H3 H4 H5 H6 H7 H8 H9 fuel ms e f H10 Hrun.
+  destruct (batch_decode_exact_legacy_then_v2_full log lg v2 o k hwm H1 H2 H3 H4 H5 H6 H7 H8 H9 fuel H10) as (ms0 & f0 & Hr0 & _ & Hp).
+  rewrite Hr0 in Hrun. injection Hrun as <- _ _. exact Hp.
 Qed.
 
 Theorem contract_legacy_then_v2 log lg v2 k hwm fuel g :
